@@ -72,6 +72,7 @@ func NewHost() *Host {
 	h.Env.Define("hnil", map[string]interface{}(nil))
 	h.Env.Define("hnilm", map[interface{}]interface{}(nil))
 	h.Env.Define("harr", [3]int64{5, 6, 7})
+	h.Env.Define("hnilptrs", []*int64{nil, nil, nil})
 	h.Env.Define("gch", func(v interface{}) interface{} {
 		ch := make(chan interface{}, 1)
 		ch <- v
